@@ -113,11 +113,11 @@ const (
 var extModeNames = []string{"ok", "not-verified", "bad-sig", "no-sig", "wrong-nonce", "status-500", "garbage", "foreign-signer"}
 
 type extServer struct {
-	mu      sync.Mutex
-	mode    extMode
-	srv     *httptest.Server
-	calls   int
-	badReq  string
+	mu     sync.Mutex
+	mode   extMode
+	srv    *httptest.Server
+	calls  int
+	badReq string
 }
 
 func newExtServer() *extServer {
@@ -958,4 +958,3 @@ func dump(ni netmap.NodeInfo) string {
 	b, _ := ni.MarshalJSON()
 	return string(b)
 }
-
